@@ -133,8 +133,62 @@ def _cb_chunk(chunk, prop):
     return res
 
 
+CL_RO_DEEP = "ensures a read-only operation leaves the tree unchanged (structure, ids, meta and the contents of the data objects)"
+
+
+def _deep(tree):
+    from .c05 import datakey
+
+    return view.obs(tree), tuple(datakey(n._data) for n in view.reachable(tree)), tuple(repr(n._meta) for n in view.reachable(tree))
+
+
+def _ro_chunk(chunk, prop):
+    """Read-only operations that succeed, on trees of *mutable* data objects with the library's / the user's mappers under
+    every storage option: the source must be unchanged down to the contents of its data objects."""
+    import tempfile
+
+    from . import c05
+
+    res = Result(prop)
+    with tempfile.TemporaryDirectory(prefix="verif_c13_") as tmpdir:
+        for famname, spec in chunk:
+            fam = c05.FAMILIES[famname]
+            labels = tuple(r[1] for r in spec.nodes) or ("a",)
+            tree, _nodes = c05.build(fam, spec)
+            before = _deep(tree)
+            mapper_kw = {"mapper": fam.save_mapper} if fam.save_mapper is not None else {}
+            thunks = [(f"{type(tree).__name__}.save({'/'.join(map(str, o))})", (lambda o=o: c05.save_load(fam, tree, labels, o, tmpdir))) for o in c05.combos(fam, "pair")]
+            thunks += [
+                ("Tree.to_dict_list(mapper)", lambda: tree.to_dict_list(**mapper_kw)), ("Tree.to_dot()", lambda: list(tree.to_dot())), ("Tree.format()", lambda: tree.format()),
+                ("Tree.copy()", lambda: tree.copy()), ("Tree.find_all(match)", lambda: tree.find_all(match=".*")), ("Tree.visit()", lambda: tree.visit(lambda n, memo: None)),
+                ("Tree.to_mermaid_flowchart()", lambda: tree.to_mermaid_flowchart(io.StringIO())), ("iter(tree)", lambda: list(tree)),
+            ]
+            for name, th in thunks:
+                wit = {"kind": "ro", "family": famname, "spec": mut._spec_json(spec), "op": name}
+                try:
+                    th()
+                except Exception:  # noqa: BLE001  (a failing save is C05's business)
+                    pass
+                res.add_case(f"{famname} {spec.short()} {name}", nontrivial=len(spec) > 0)
+                now = _deep(tree)
+                if now != before:
+                    what = "structure / ids" if now[0] != before[0] else ("data object contents: " + repr(now[1]) + " before: " + repr(before[1]) if now[1] != before[1] else "meta")
+                    res.violations.append(Violation(prop, CL_RO_DEEP, name.split("(")[0], wit, clip(f"[{famname}] {spec.short()} after {name}: changed {what}")))
+                    tree, _nodes = c05.build(fam, spec)
+                    before = _deep(tree)
+    return res
+
+
 def run(prop, tier, only=None):
     total = mut.sweep(prop, tier)
+    ro = [(f, s) for f in ("dw", "derivedtyped", "rec", "fs", "typed") for s in gen.plain_specs(2 if tier == "quick" else 3, min_n=1)]
+    ro = [(f, (s if not __import__("native.props.c05", fromlist=["x"]).FAMILIES[f].typed else gen.Spec(tuple((p, lab, d, ("k1", "k2")[i % 2]) for i, (p, lab, d, _k) in enumerate(s.nodes)), typed=True))) for f, s in ro]
+    total.merge(parallel(_ro_chunk, ro, prop, prop=prop))
+    total.bounds["read-only operations leave the tree unchanged, deep"] = (
+        f"trees with 1..{2 if tier == 'quick' else 3} nodes of DictWrapper / entity / frozen-record / FileSystemEntry / string data (families dw, derivedtyped, rec, fs, typed of native/props/c05.py) x "
+        "save under a pairwise-covering set of key_map x value_map x compression x target x meta, to_dict_list(mapper), to_dot, to_mermaid_flowchart, format, copy, find_all, visit, iteration; "
+        "compared: view.obs + field-wise contents of every data object + meta"
+    )
     n = 3 if tier == "quick" else 4
     specs = list(gen.plain_specs(n, min_n=1))
     total.merge(parallel(_cb_chunk, specs, prop, prop=prop))
@@ -147,5 +201,8 @@ def replay(witness, prop):
     if k in ("op", "history"):
         return mut.replay(witness, prop)
     spec = mut.spec_from_json(witness["spec"])
+    if k == "ro":
+        r = _ro_chunk([(witness["family"], spec)], prop)
+        return [(v.clause, v.text) for v in r.violations if v.witness.get("op") == witness.get("op")]
     r = _cb_chunk([spec], prop)
     return [(v.clause, v.text) for v in r.violations if v.witness.get("op") == witness.get("op") and v.witness.get("k") == witness.get("k")]
